@@ -273,6 +273,75 @@ func VerifC03Reject(s string) int {
 	return 0
 }
 
+
+// ---------------------------------------------------------------- C02
+
+// VerifSpecCompare exposes the reference order on whole versions (used by the dependency harness as well).
+func VerifSpecCompare(a, b Version) int {
+	return specCompare(a.Epoch, a.Version, a.Revision, b.Epoch, b.Version, b.Revision)
+}
+
+// VerifC02Laws: reflexivity, antisymmetry, transitivity and congruence of Compare on a triple.  0 = holds.
+func VerifC02Laws(ea uint, ua, ra string, eb uint, ub, rb string, ec uint, uc, rc string) int {
+	a := Version{Epoch: ea, Version: ua, Revision: ra}
+	b := Version{Epoch: eb, Version: ub, Revision: rb}
+	c := Version{Epoch: ec, Version: uc, Revision: rc}
+	if Compare(a, a) != 0 {
+		return 1
+	}
+	ab, ba := sign(Compare(a, b)), sign(Compare(b, a))
+	if ab != -ba {
+		return 2
+	}
+	ac, bc := sign(Compare(a, c)), sign(Compare(b, c))
+	if ab <= 0 && bc <= 0 && ac > 0 {
+		return 3
+	}
+	if ab == 0 && ac != bc {
+		return 4
+	}
+	return 0
+}
+
+func verifSortCheck(in Slice) int {
+	s := make(Slice, len(in))
+	copy(s, in)
+	verifSort(s)
+	if len(s) != len(in) {
+		return 1
+	}
+	for i := 1; i < len(s); i++ {
+		if VerifSpecCompare(s[i-1], s[i]) > 0 {
+			return 2
+		}
+	}
+	// permutation: every input element occurs in the output as often as in the input
+	for i := range in {
+		ci, co := 0, 0
+		for j := range in {
+			if eqVersion(in[i], in[j]) {
+				ci++
+			}
+			if eqVersion(in[i], s[j]) {
+				co++
+			}
+		}
+		if ci != co {
+			return 3
+		}
+	}
+	return 0
+}
+
+// VerifC02Sort3 / Sort4: sorting with the provided adapter ends with a non-decreasing permutation.
+func VerifC02Sort3(e0 uint, u0, r0 string, e1 uint, u1, r1 string, e2 uint, u2, r2 string) int {
+	return verifSortCheck(Slice{{e0, u0, r0}, {e1, u1, r1}, {e2, u2, r2}})
+}
+
+func VerifC02Sort4(e0 uint, u0, r0 string, e1 uint, u1, r1 string, e2 uint, u2, r2 string, e3 uint, u3, r3 string) int {
+	return verifSortCheck(Slice{{e0, u0, r0}, {e1, u1, r1}, {e2, u2, r2}, {e3, u3, r3}})
+}
+
 var verifFuncs = map[string]interface{}{
 	"VerifC01Rev":     VerifC01Rev,
 	"VerifSpecCmp":    VerifSpecCmp,
@@ -281,6 +350,9 @@ var verifFuncs = map[string]interface{}{
 	"VerifC01Less":    VerifC01Less,
 	"VerifLess":       VerifLess,
 	"VerifC01Parsed":  VerifC01Parsed,
+	"VerifC02Laws":    VerifC02Laws,
+	"VerifC02Sort3":   VerifC02Sort3,
+	"VerifC02Sort4":   VerifC02Sort4,
 	"VerifC03Round":   VerifC03Round,
 	"VerifC03Grammar": VerifC03Grammar,
 	"VerifC03Reject":  VerifC03Reject,
